@@ -142,6 +142,8 @@ def gen_config(rng, opts=None):
             su['retries_after_failure'] = rng.choice([0, 1, 2, 3, 8])
         if o['builds'] and rng.random() < 0.3:
             su['build'] = ['make s%d' % s] if rng.random() < 0.7 else ['make shared']
+        if rng.random() < 0.3:    # the suite's own location: equal to / different from the executor's path
+            su['location'] = rng.choice(['.', 'sub%d' % s, '/opt/bench/s%d' % s])
         if rng.random() < 0.2:
             su['description'] = 'suite %d' % s
         if o['env'] and rng.random() < 0.5:
@@ -262,10 +264,8 @@ def classify_start(probe, rec):
     args = rec['args']
     if args == '/bin/sh':
         script = rec.get('stdin') or ''
-        for i, (cmd, _loc) in enumerate(probe.builds):
-            if cmd == script:
-                return ['b', i]
-        return ['?', 'build:' + script]
+        i = build_index(probe, script, rec.get('cwd'))
+        return ['b', i] if i is not None else ['?', 'build:' + script]
     text = args
     if text.startswith('perf '):
         if ' report ' in text or text.startswith('perf report'):
@@ -288,6 +288,18 @@ def classify_start(probe, rec):
         except (TypeError, ValueError, KeyError):
             pass
     return ['?', args]
+
+
+def build_index(probe, script, cwd):
+    """a build command is identified by its text *and* its location (two suites may share the text)"""
+    cands = [i for i, (cmd, _loc) in enumerate(probe.builds) if cmd == script]
+    if len(cands) <= 1:
+        return cands[0] if cands else None
+    for i in cands:
+        loc = probe.builds[i][1]
+        if loc is not None and cwd is not None and os.path.abspath(os.path.expanduser(loc)) == os.path.abspath(cwd):
+            return i
+    return cands[0]
 
 
 def gen_outputs(rng, probe, fail_rate=0.15):
@@ -357,10 +369,8 @@ def _patch_fakeproc_for_builds():
         o = self.outcome
         if isinstance(o, _BuildOutcome):
             script = self.stdin.data.decode('utf-8', 'replace')
-            ok = True
-            for i, (cmd, _loc) in enumerate(o._probe.builds):
-                if cmd == script:
-                    ok = o._ok[i]
+            i = build_index(o._probe, script, self.rec.get('cwd'))
+            ok = True if i is None or i >= len(o._ok) else o._ok[i]
             o.rc = 0 if ok else 1
             o.out = '' if ok else 'build failed\n'
         return orig(self)
